@@ -413,7 +413,11 @@ impl<CharIter: Iterator<Item = char>> Lexer<CharIter> {
                 self.advance(1);
             }
         }
-        self.digital10(number_literal)
+        self.digital10(number_literal)?;
+        match self.peekable_char_stream.peek() {
+            Some(nc) => Self::test_delimiter(Some(self.location), *nc),
+            None => Ok(()),
+        }
     }
 
     fn real(&mut self, number_literal: &mut String) -> Result<()> {
